@@ -6,19 +6,19 @@ CONSTANTS
   TDiscWait = 5
   TDiscResp = 10
   TCall = 10
-  Configs <- ConnectConfigs
-  MaxEnv = 7
-  MaxFaults = 2
-  Msgs <- ConnectMsgs
-  MaxChunk = 2
+  Configs <- KAConfigs
+  MaxEnv = 3
+  MaxFaults = 0
+  Msgs <- KAMsgs
+  MaxChunk = 1
   UseCalls = FALSE
   UseSubs = FALSE
   GenMode = TRUE
-  StartConnected = FALSE
-  Grid = 0
-  TrackKA = FALSE
+  StartConnected = TRUE
+  Grid = 5
+  TrackKA = TRUE
   SubKinds = {"A"}
 SPECIFICATION MCSpec
 VIEW mcview
-CONSTRAINT Horizon
+CONSTRAINT KAHorizon
 CHECK_DEADLOCK FALSE
